@@ -361,4 +361,79 @@ theorem bitxor_assign_eq_src (a b : Block) : (Block.bitxor_assign a b).toList = 
   block_bitxor_assign_eq_src a b
 end Argon2Block
 
+/-! ## further leftovers of tools/tie_coverage.py: chacha/reference.rs `output_ad_bytes`, simd.rs, the `sigma0/1` of the SHA-512 schedule -/
+
+namespace ChaChaRef
+open Cx.Extracted.GlueRest.ChaChaRef
+theorem structs_checked : State_struct_src = () := rfl
+/-- `reference::State::output_ad_bytes` into its 32-byte buffer: words 0..4 and 12..16, little-endian (no slice out of range, both
+    `write_u32v_le` length tests hold) = the model's `Reference.output_ad_bytes` (HChaCha) -/
+theorem output_ad_bytes_src_eq_model (w : Impl.W16) (output : Bytes) (ho : output.length = 32) :
+    output_ad_bytes_src w output = some (Impl.ChaCha.Reference.output_ad_bytes w) := ref_output_ad_bytes_src_eq_model w output ho
+end ChaChaRef
+
+namespace Simd
+open Cx.Extracted.GlueRest.Simd
+open Cx.Impl.Sha1 (u32x4)
+open Cx.Impl.Sha2.Impl512 (u64x2)
+/-- the operators of the portable `simd::fake` module the hash cores use are the model's instances -/
+theorem u32x4.add_src_eq_model (a b : u32x4) : u32x4.add_src a b = a + b := rfl
+theorem u32x4.bitxor_src_eq_model (a b : u32x4) : u32x4.bitxor_src a b = a ^^^ b := rfl
+theorem u64x2.add_src_eq_model (a b : u64x2) : u64x2.add_src a b = a + b := rfl
+/-- the remaining operators (not used by any caller in the crate; the models have no counterpart): lane-wise, as written -/
+theorem u32x4.sub_src_lanes (a b : u32x4) : u32x4.sub_src a b = ⟨a.x0 - b.x0, a.x1 - b.x1, a.x2 - b.x2, a.x3 - b.x3⟩ := rfl
+theorem u32x4.bitand_src_lanes (a b : u32x4) : u32x4.bitand_src a b = ⟨a.x0 &&& b.x0, a.x1 &&& b.x1, a.x2 &&& b.x2, a.x3 &&& b.x3⟩ := rfl
+theorem u32x4.bitor_src_lanes (a b : u32x4) : u32x4.bitor_src a b = ⟨a.x0 ||| b.x0, a.x1 ||| b.x1, a.x2 ||| b.x2, a.x3 ||| b.x3⟩ := rfl
+/-- shifts: defined exactly for amounts below 32 (an overflow-checked build panics otherwise) -/
+theorem u32x4.shl_usize_src_eq (a : u32x4) (n : Nat) (hn : n < 32) :
+    u32x4.shl_usize_src a n = some ⟨a.x0 <<< UInt32.ofNat n, a.x1 <<< UInt32.ofNat n, a.x2 <<< UInt32.ofNat n, a.x3 <<< UInt32.ofNat n⟩ := by
+  simp [u32x4.shl_usize_src, shlW32, hn]
+theorem u32x4.shr_usize_src_eq (a : u32x4) (n : Nat) (hn : n < 32) :
+    u32x4.shr_usize_src a n = some ⟨a.x0 >>> UInt32.ofNat n, a.x1 >>> UInt32.ofNat n, a.x2 >>> UInt32.ofNat n, a.x3 >>> UInt32.ofNat n⟩ := by
+  simp [u32x4.shr_usize_src, shrW32, hn]
+theorem u32x4.shl_lanes_src_eq (a b : u32x4) (h : b.x0.toNat < 32 ∧ b.x1.toNat < 32 ∧ b.x2.toNat < 32 ∧ b.x3.toNat < 32) :
+    u32x4.shl_lanes_src a b = some ⟨a.x0 <<< b.x0, a.x1 <<< b.x1, a.x2 <<< b.x2, a.x3 <<< b.x3⟩ := by
+  simp [u32x4.shl_lanes_src, shlW32, h.1, h.2.1, h.2.2.1, h.2.2.2]
+theorem u32x4.shr_lanes_src_eq (a b : u32x4) (h : b.x0.toNat < 32 ∧ b.x1.toNat < 32 ∧ b.x2.toNat < 32 ∧ b.x3.toNat < 32) :
+    u32x4.shr_lanes_src a b = some ⟨a.x0 >>> b.x0, a.x1 >>> b.x1, a.x2 >>> b.x2, a.x3 >>> b.x3⟩ := by
+  simp [u32x4.shr_lanes_src, shrW32, h.1, h.2.1, h.2.2.1, h.2.2.2]
+end Simd
+
+namespace Sha2Out
+open Cx.Impl Cx.Impl.Sha2
+/-- the `#[allow(dead_code)]` fixed-size output functions of eng256.rs / eng512.rs are the `_at` functions (tied by GlueTieMd) on a buffer of
+    their static size -/
+theorem structs_checked : Sha2Eng256.Engine_struct_src = () ∧ Sha2Eng256.STATE_LEN_src = () ∧ Sha2Eng512.Engine_struct_src = () ∧
+    Sha2Eng512.STATE_LEN_src = () := ⟨rfl, rfl, rfl, rfl⟩
+theorem eng256_output_224bits_src_eq_model (e : Eng256.Engine) (out : Bytes) (ho : out.length = 28) :
+    Sha2Eng256.output_224bits_src e out = e.output_224bits_at out := by
+  unfold Sha2Eng256.output_224bits_src Eng256.Engine.output_224bits_at
+  simp [Impl.slice, copy_from_slice, ho, write_u32v_be, Spec.Sha2.W8.toList, u32be_len]
+theorem eng256_output_256bits_src_eq_model (e : Eng256.Engine) (out : Bytes) (ho : out.length = 32) :
+    Sha2Eng256.output_256bits_src e out = e.output_256bits_at out := by
+  unfold Sha2Eng256.output_256bits_src Eng256.Engine.output_256bits_at
+  simp [Impl.slice, copy_from_slice, ho, write_u32v_be, Spec.Sha2.W8.toList, u32be_len]
+theorem eng512_output_224bits_src_eq_model (e : Eng512.Engine) (out : Bytes) (ho : out.length = 28) :
+    Sha2Eng512.output_224bits_src e out = e.output_224bits_at out := by
+  unfold Sha2Eng512.output_224bits_src Eng512.Engine.output_224bits_at
+  simp [Impl.slice, copy_from_slice, Extracted.GlueRest.copyInto, ho, write_u64v_be, write_u32_be, idx, Spec.Sha2.W8.toList, u64be_len, u32be_len]
+theorem eng512_output_nbits_src_eq_model (e : Eng512.Engine) (out : Bytes) :
+    Sha2Eng512.output_256bits_src e out = e.output_256bits_at out ∧ Sha2Eng512.output_384bits_src e out = e.output_384bits_at out ∧
+    Sha2Eng512.output_512bits_src e out = e.output_512bits_at out := by
+  refine ⟨?_, ?_, ?_⟩
+  · unfold Sha2Eng512.output_256bits_src Eng512.Engine.output_256bits_at
+    simp
+  · unfold Sha2Eng512.output_384bits_src Eng512.Engine.output_384bits_at
+    simp
+  · unfold Sha2Eng512.output_512bits_src Eng512.Engine.output_512bits_at
+    simp
+end Sha2Out
+
+namespace Sha512Ref
+open Cx.Extracted.GlueRest.Sha512Ref
+/-- the nested `sigma0` / `sigma1` of `schedule_x2` (`rotate_left(63)` = the model's `rotate_left x 63`, i.e. a right rotation by 1, …) -/
+theorem sigma0_src_eq_model (x : UInt64) : sigma0_src x = Impl.Sha2.Impl512.sigma0 x := rfl
+theorem sigma1_src_eq_model (x : UInt64) : sigma1_src x = Impl.Sha2.Impl512.sigma1 x := rfl
+end Sha512Ref
+
 end Cx.Props.C20.GlueTieRest
